@@ -940,7 +940,13 @@ impl<'p> Evaluator<'_, 'p> {
             }
             None
         } else {
-            float::try_to_usize(maxsplits).and_then(|v| v.checked_add(1))
+            // A limit that does not fit in `usize` can never be reached, but the
+            // string must still be split starting from the end.
+            Some(
+                float::try_to_usize(maxsplits)
+                    .and_then(|v| v.checked_add(1))
+                    .unwrap_or(usize::MAX),
+            )
         };
 
         let result_array = if let Some(maxsplits) = maxsplits {
